@@ -235,6 +235,7 @@ def arg_tuple_path(t):
 
 
 def writer_items(fx, b, start=0):
+    _FX[0] = fx
     sizes = size_table(fx)
     blocks, why = mainline(b, start)
     prov = sym.Prov(b)
@@ -263,6 +264,16 @@ def writer_items(fx, b, start=0):
             if sv[0] == "c":
                 it.const = sv[1]
                 it.field = None
+            if it.field is None and it.const is None and not it.note:
+                # the value goes through a method of the written type: remember it, compare() checks it against the reader's field
+                for x in sym.walk(val):
+                    if x[0] == "call" and x[1] and not x[1].startswith(("std::", "core::", "<", "alloc::")) and x[2]:
+                        a0 = sym.strip(x[2][0])
+                        while a0[0] in ("ref", "deref"):
+                            a0 = sym.strip(a0[1])
+                        if a0[0] in ("arg", "field"):
+                            it.note = "via:%s" % x[1]
+                            break
             if ty.startswith("binary::read::ReadArray") or "ReadArrayCow" in ty:
                 it.kind = "array"
             items.append(it)
@@ -283,6 +294,24 @@ def writer_items(fx, b, start=0):
             if b.local_ty(a0["p"]["l"]) == b.local_ty(1) and b.local_ty(1).startswith("&mut"):
                 items.append(Item("opaque", p.split("::")[-1], None, bb))
     return items, why
+
+
+_FX = [None]
+
+
+def plain_getter(path):
+    """the method only projects a field (no arithmetic, masking or further calls); unknown bodies count as plain"""
+    fx = _FX[0]
+    b = fx.body(path) if fx is not None else None
+    if b is None:
+        return True
+    for blk in b.blocks:
+        for st in blk["s"]:
+            if st["k"] == "assign" and st["rv"]["k"] in ("bin", "un"):
+                return False
+        if blk["t"]["k"] == "call":
+            return False
+    return True
 
 
 def compare(ritems, rwhy, witems, wwhy):
@@ -307,6 +336,8 @@ def compare(ritems, rwhy, witems, wwhy):
             break   # everything after a width mismatch is shifted
         if r.field and w.field and r.field != w.field:
             diffs.append((i, "field order differs: reader stores item %d in `%s`, writer emits `%s` there" % (i, r.field, w.field)))
+        if w.note.startswith("via:") and r.field and w.note[4:].split("::")[-1] == r.field and not plain_getter(w.note[4:]):
+            diffs.append((i, "reader stores the raw item in `%s`, writer emits %s(), which computes its result: the stored value is not what is written back" % (r.field, w.note[4:])))
         if r.const is not None and w.const is not None and r.const != w.const:
             diffs.append((i, "reader requires the constant %s, writer emits %s" % (r.const, w.const)))
         if (r.ty in SIGN) != (w.ty in SIGN) and r.ty in PRIM_WIDTH and w.ty in PRIM_WIDTH and r.field and w.field:
